@@ -565,6 +565,9 @@ class HistogramND(HistogramBase):
         frequencies, errors2, missing = calculate_nd_frequencies(
             data=data, binnings=binnings, weights=weights, dtype=dtype
         )
+        if not kwargs.get("keep_missed", True):
+            # Nothing is recorded for the values outside (as in 1D, and as in fill)
+            missing = 0
         return cls(
             binnings=binnings,
             frequencies=frequencies,
